@@ -26,6 +26,7 @@ struct ActionCfg {
   bool external = false;   // return value observed, not chosen (wrapped real plugin)
   int ownDelay = -1;       // plugin-level post_action_delay (-1 = none)
   std::string json;        // full plugin JSON if not a plain scripted plugin
+  double busy = 0;         // virtual seconds the (scripted) action takes to run
 };
 struct RulesetCfg {
   std::string name;
@@ -62,7 +63,8 @@ struct Cfg {
         if (!rs.actions[a].json.empty())
           o << rs.actions[a].json;
         else
-          o << "{\"name\":\"verif_scripted\",\"args\":{\"id\":\"" << rs.actions[a].id << "\"}}";
+          o << "{\"name\":\"verif_scripted\",\"args\":{\"id\":\"" << rs.actions[a].id << "\""
+            << (rs.actions[a].busy > 0 ? ",\"busy\":\"" + std::to_string(rs.actions[a].busy) + "\"" : std::string()) << "}}";
       }
       o << "]}";
     }
@@ -74,7 +76,10 @@ struct Cfg {
     for (auto& rs : rulesets) {
       o << rs.name << "{G=";
       for (auto& g : rs.groups) o << g.size();
-      o << ",A=" << rs.actions.size() << ",d=" << rs.delay << ",h=" << rs.hookTimeout << ",s=" << rs.silence << "}";
+      o << ",A=" << rs.actions.size();
+      for (auto& a : rs.actions)
+        if (a.busy > 0) o << "(" << a.id << " takes " << a.busy << "s)";
+      o << ",d=" << rs.delay << ",h=" << rs.hookTimeout << ",s=" << rs.silence << "}";
     }
     return o.str();
   }
@@ -117,6 +122,10 @@ struct Model {
   // model. Returns "" or "<rule>: explanation".
   std::string tick(double now, const std::vector<sim::Call>& calls, size_t b, size_t e) {
     size_t k = b;
+    // `now` becomes a running clock: plugins may take (virtual) time, and every later clock read of the tick sees it
+    auto passed = [&](size_t upto) {
+      for (size_t i = b; i < upto && i < e; i++) now = std::max(now, calls[i].tEnd);
+    };
     auto expect = [&](const std::string& id, const char* method) -> std::string {
       if (k >= e) return std::string("missing call ") + id + "." + method;
       if (calls[k].id != id || calls[k].method != method)
@@ -150,6 +159,7 @@ struct Model {
         }
         if (ok && fired < 0) fired = (int)g;
       }
+      passed(k);
       if (now < s.pausedUntil) continue;  // paused: nothing else for this ruleset
       int start = -1;
       Ctx ctx;
@@ -210,7 +220,7 @@ struct Model {
 };
 
 struct TickIn {
-  int dt;
+  double dt;
   std::vector<int> choices;
 };
 using Hist = std::vector<TickIn>;
@@ -218,7 +228,11 @@ using Hist = std::vector<TickIn>;
 inline std::string histStr(const Hist& h) {
   std::string s;
   for (auto& t : h) {
-    s += "(+" + std::to_string(t.dt) + "s:";
+    {
+      std::ostringstream d;
+      d << t.dt;
+      s += "(+" + d.str() + "s:";
+    }
     for (auto c : t.choices) s += "CSA"[c];
     s += ")";
   }
@@ -293,7 +307,7 @@ inline std::string implKey(Oomd::Oomd& o, const Cfg& cfg, const std::string& mod
 }
 
 struct Options {
-  std::vector<int> dts = {1, 3};
+  std::vector<double> dts = {1, 3};
   int maxDepth = 64;           // safety horizon; fixpoint normally reached much earlier
   size_t maxTransitions = 400000;
   // extra per-execution hook: called after the run with the call log to apply property-specific rules
@@ -330,7 +344,7 @@ inline void exploreConfig(const std::string& prop, const std::string& klass, con
       capped = true;
       break;
     }
-    for (int dt : opt.dts) {
+    for (double dt : opt.dts) {
       ve::exploreAll([&](ve::Chooser& ch) {
         transitions++;
         sim::resetScript();
@@ -379,12 +393,17 @@ inline void exploreConfig(const std::string& prop, const std::string& klass, con
         double now = 0;
         std::string verdict;
         for (int t = 1; t <= (int)H2.size() && verdict.empty(); t++) {
-          now += H2[t - 1].dt;
+          now += H2[t - 1].dt;  // the tick starts dt after the previous one ENDED (slow plugins make a tick take time)
           std::vector<sim::Call> tc;
           for (auto& c : sim::calls)
             if (c.tick == t && c.method != "init") tc.push_back(c);
+          if (!tc.empty() && std::fabs(tc.front().t - now) > 1e-6) {
+            verdict = "harness: tick " + std::to_string(t) + " started at " + std::to_string(tc.front().t) + " but the model clock says " + std::to_string(now);
+            break;
+          }
           verdict = m.tick(now, tc, 0, tc.size());
           if (!verdict.empty()) verdict = "tick " + std::to_string(t) + ": " + verdict;
+          for (auto& c : tc) now = std::max(now, c.tEnd);
         }
         if (verdict.empty() && opt.extraRule) verdict = opt.extraRule(cfg, H2, sim::calls);
         if (!verdict.empty()) {
